@@ -13,6 +13,8 @@ values with 'word=', '%41', blanks, non-ASCII: the file must still be read as GT
 generator | iterator of Features, case["checklines"]), "gtf-shared" (a transcript id annotated under 2-3 gene ids;
 case["perms"] = line orders of case["model"], all imported and compared with the model and with one another).  Models made
 by G.make_edge_seqids (seqids that start/end with a blank-like character) run as "gtf" / "gtf-oneshot" cases.
+"gtf-strategy": case["merge_strategy"] (one of G.MERGE_STRATEGIES) is passed to create_db; the file has no duplicated ids but
+gene/transcript lines of its own that differ from what inference derives (G.make_differing) or look exactly like it.
 """
 import os
 import random
@@ -40,7 +42,14 @@ RULE = ("GTF files of 1-3 genes x 1-3 transcripts x 0-4 subfeature lines ('exon'
         "annotated under 2-3 of the 2-4 gene ids of one seqid and strand (neighbouring or far-apart loci), every (transcript, "
         "gene) combination with >= 1 subfeature line, every gene id owning >= 1 subfeature line, at most one transcript line "
         "for a shared id, ordinary transcripts and gene lines besides; each file under 4 line orders (as generated, reversed, "
-        "2 random), each judged against the model and all compared with one another. non-trivial = >= 2 transcripts in "
+        "2 random), each judged against the model and all compared with one another; (merge strategy) files WITHOUT duplicated "
+        "ids in which all or some genes/transcripts have a line of their own that differs from what inference would derive - "
+        "another source than the exons' (85%), coordinates reaching beyond the exons on one or both sides (60%) or narrower "
+        "(10%), 1-2 attributes no derived feature has (80%) - or (1 file of 5) that looks exactly like a derived feature; each "
+        "file under merge_strategy = 'error', 'merge', 'replace', 'create_unique', 'warning' x all four flag combinations: "
+        "the line must stay the single feature under its id with its own columns and attribute mapping, everything else as "
+        "in the basic workload. Exon lines that carry a gene id but no (or an empty) transcript id are never generated. "
+        "non-trivial = >= 2 transcripts in "
         "one gene and >= 1 transcript with >= 2 subfeature lines; distinct = file text + keys + flag combination + way of input")
 REQUIRED = ["imports", "derived features compared (id, type, seqid, strand)", "derived extents compared",
             "suppressed derived features confirmed absent", "relation rows compared", "children()/parents() calls compared with the model",
@@ -56,7 +65,14 @@ REQUIRED = ["imports", "derived features compared (id, type, seqid, strand)", "d
             "shared transcript id: pairs of line orders with identical derived features and relations",
             "shared transcript id: derived transcripts spanning the exons of >= 2 genes compared",
             "shared transcript id: derived genes all of whose exons belong to a shared transcript compared",
-            "shared transcript id: (gene, transcript, 1) rows of a transcript annotated under >= 2 genes expected"]
+            "shared transcript id: (gene, transcript, 1) rows of a transcript annotated under >= 2 genes expected"] + [
+    fmt % s for s in ("error", "merge", "replace", "create_unique", "warning") for fmt in (
+        "strategy: imports with merge_strategy='%s' of a file without duplicated ids",
+        "strategy %s: gene lines meeting a derived feature of their id compared",
+        "strategy %s: transcript lines meeting a derived feature of their id compared",
+        "strategy %s: such lines with another source than a derived feature",
+        "strategy %s: such lines with other coordinates than the exons' extent",
+        "strategy %s: such lines with attributes no derived feature has")]
 REQUIRED_CLASSES = ["flags: infer both", "flags: no transcripts", "flags: no genes", "flags: infer nothing",
                     "file: gene/transcript lines present", "file: no gene/transcript lines", "file: explicit lines look derived (merge path)",
                     "file: transcript without exons", "keys: custom", "keys: default", "subfeature: custom",
@@ -67,7 +83,12 @@ REQUIRED_CLASSES = ["flags: infer both", "flags: no transcripts", "flags: no gen
                     "one-shot: checklines=0", "one-shot: checklines=1", "one-shot: checklines=10",
                     "seqid edge: leading", "seqid edge: trailing", "seqid edge: both ends", "seqid edge: blank only",
                     "seqid edge: space", "seqid edge: NBSP U+00A0", "seqid edge: U+3000", "seqid edge: form feed",
-                    "shared transcript id: under 2 gene ids", "shared transcript id: under 3 gene ids"]
+                    "shared transcript id: under 2 gene ids", "shared transcript id: under 3 gene ids",
+                    "strategy: merge_strategy='error'", "strategy: merge_strategy='merge'", "strategy: merge_strategy='replace'",
+                    "strategy: merge_strategy='create_unique'", "strategy: merge_strategy='warning'",
+                    "strategy: explicit lines differ from inference", "strategy: explicit lines look derived",
+                    "strategy: explicit lines differ in: source", "strategy: explicit lines differ in: wider coordinates",
+                    "strategy: explicit lines differ in: extra attributes"]
 ASSUMPTIONS = [
     "the reference model gvmon/models/gtfinfer.py is a faithful reading of the statement",
     "exons (subfeature lines) of one transcript and of one gene share seqid and strand (otherwise 'the exons' seqid and "
@@ -82,7 +103,8 @@ ASSUMPTIONS = [
     "a seqid is the exact text of the first column: blank-like characters at its edges (space, NBSP, U+3000, form feed, ...) "
     "belong to it; 'on the exons' seqid' is judged byte for byte (CR and LF are line terminators and never part of a seqid)",
     "every exon / other line carries both ids; a transcript line carries both; a gene line carries only its gene id "
-    "(possibly with an empty transcript id)",
+    "(possibly with an empty transcript id).  Exon / other lines with a gene id but no or an empty transcript id are outside "
+    "the statement ('every other line carrying these ids') and are never generated",
     "with custom gtf_transcript_key/gtf_gene_key the matching id_spec {'gene': gene key, 'transcript': transcript key} is "
     "passed, so that 'retrievable by that id' is meaningful",
     "extents (start/end) and seqid/strand of derived features are judged only when both disable flags are False; with a "
@@ -90,6 +112,12 @@ ASSUMPTIONS = [
     "a gene/transcript line present in the file wins over the derived feature of the same id whatever its own columns are: "
     "the oracle asks that it is the only feature of its id, with the columns of its line and the same attribute mapping "
     "(key -> set of values; key order and value order not judged); whether its extent agrees with the exons is not judged",
+    "merge_strategy says what happens to lines whose id is already taken; a file in which every gene id / transcript id has "
+    "at most one gene / transcript line (all other lines get generated ids) has no such lines, so under each of 'error', "
+    "'merge', 'replace', 'create_unique', 'warning' the import succeeds and the statement reads as without the argument: the "
+    "file's own gene/transcript line - not the feature inference would derive for its id - is the single feature under that id "
+    "(seqid, source, type, coordinates, score, strand, frame of ITS line; attribute mapping of its line: on the unchanged tree "
+    "the attributes a derived look-alike brings are a subset of the line's, so the mapping is unchanged)",
     "transcripts/genes without any subfeature line and without a line of their own: neither presence nor absence of a "
     "feature under their id is demanded",
     "source/score/frame/attributes of derived features are not judged",
@@ -180,6 +208,8 @@ def import_one(ctx, case, m):
         kw["gtf_subfeature"] = sub
     if "checklines" in case:
         kw["checklines"] = int(case["checklines"])
+    if case.get("merge_strategy") is not None:
+        kw["merge_strategy"] = case["merge_strategy"]
     info = {"flags": kw, "text": text if not large else text[:1500] + "\n... (%d lines, rebuilt from the case)" % len(lines)}
     if how != "path":
         info["input"] = how
@@ -208,6 +238,8 @@ def import_one(ctx, case, m):
             ctx.violation(case, dict(info, why="create_db raised %s" % type(ex).__name__, error=repr(ex)))
             return None
         ctx.mon("imports")
+        if case.get("merge_strategy") is not None:
+            ctx.mon("strategy: imports with merge_strategy=%r of a file without duplicated ids" % (case["merge_strategy"],))
         if how != "path":
             ctx.mon("one-shot inputs imported (generator/iterator of Features)")
         if large:
@@ -268,10 +300,25 @@ def judge(ctx, case, db, exp, lines, info, m):
     for i, n in enumerate(exp["names"]):
         name2id[n] = by_tag["L%d" % i]["id"] if n.startswith("@") and n == "@%d" % i else n
     # -- gene/transcript lines of the file: the single feature under their id, columns and attributes kept -------
+    strategy = case.get("merge_strategy")
+    extent = subfeature_extents(lines, m) if strategy is not None else None
     for ident, i in sorted(exp["explicit"].items()):
         rec = lines[i]
         f = by_tag["L%d" % i]
         ctx.mon("gene/transcript lines of the file compared (single feature, columns, attributes)")
+        if strategy is not None:
+            # does inference produce a feature of this id that meets the line?  (the id owns subfeature lines, its flag is off)
+            k = exp["kind"][ident]
+            if ident in extent[k] and not (case["dit"] if k == "transcript" else case["dig"]):
+                S = "strategy %s: " % strategy
+                ctx.mon(S + "gene/transcript lines meeting a derived feature of their id compared")
+                ctx.mon(S + "%s lines meeting a derived feature of their id compared" % k)
+                if rec["source"] != "gffutils_derived":
+                    ctx.mon(S + "such lines with another source than a derived feature")
+                if (int(rec["start"]), int(rec["end"])) != extent[k][ident]:
+                    ctx.mon(S + "such lines with other coordinates than the exons' extent")
+                if {a for a, _ in rec["attrs"]} - {m["tkey"], m["gkey"], "tag"}:
+                    ctx.mon(S + "such lines with attributes no derived feature has")
         if i >= 1000:
             ctx.mon("gene/transcript lines standing after line 1000 compared")
         cols = {"seqid": rec["seqid"], "source": rec["source"], "featuretype": rec["featuretype"], "start": int(rec["start"]),
@@ -397,6 +444,19 @@ def judge(ctx, case, db, exp, lines, info, m):
             "relations": sorted([canon.get(p_, p_), canon.get(c_, c_), lv] for p_, c_, lv in rows)}
 
 
+def subfeature_extents(lines, m):
+    """{"transcript": {id: (min start, max end) of its subfeature lines}, "gene": {...}}: the ids inference derives a feature for."""
+    out = {"transcript": {}, "gene": {}}
+    for rec in lines:
+        if rec["featuretype"] == m["subfeature"]:
+            for k, key in (("transcript", m["tkey"]), ("gene", m["gkey"])):
+                ident = I.attr(rec, key)
+                if ident is not None:
+                    s, e = out[k].get(ident, (int(rec["start"]), int(rec["end"])))
+                    out[k][ident] = (min(s, int(rec["start"])), max(e, int(rec["end"])))
+    return out
+
+
 def shared_only(m):
     """Gene ids all of whose subfeature lines carry a shared transcript id."""
     own = {}
@@ -439,6 +499,10 @@ def classify(ctx, case, m=None):
         names += ["seqid edge: " + where, "seqid edge: " + blank]
     if m.get("shared"):
         names.append("shared transcript id: under %d gene ids" % max(len(v) for v in m["shared"].values()))
+    if case.get("merge_strategy") is not None:
+        names.append("strategy: merge_strategy=%r" % (case["merge_strategy"],))
+        names.append("strategy: explicit lines look derived" if m.get("derived_like") else "strategy: explicit lines differ from inference")
+        names += ["strategy: explicit lines differ in: " + d for d in m.get("differing") or ()]
     for n in names:
         ctx.classes[n] += 1
     return any(len(v) >= 2 for v in tx_of_gene.values()) and any(n >= 2 for n in subs.values())
@@ -449,9 +513,9 @@ def one(ctx, case, m):
     nontrivial = classify(ctx, case, m)
     text = G.text_of(m)
     ctx.case((text, m["tkey"], m["gkey"], m["subfeature"], case["dit"], case["dig"], case.get("how"), case.get("checklines"),
-              repr(case.get("perms"))), nontrivial,
+              repr(case.get("perms")), case.get("merge_strategy")), nontrivial,
              sample={"kind": case["kind"], "flags": [case["dit"], case["dig"]], "keys": [m["tkey"], m["gkey"], m["subfeature"]],
-                     "input": case.get("how", "path"), "text": text[:800]})
+                     "input": case.get("how", "path"), "merge_strategy": case.get("merge_strategy"), "text": text[:800]})
 
 
 def run(ctx):
@@ -516,6 +580,19 @@ def run(ctx):
         for dit in (False, True):
             for dig in (False, True):
                 one(ctx, {"kind": "gtf", "model": m, "dit": dit, "dig": dig, "db": dbkind}, m)
+    # -- (merge strategy) files without duplicated ids whose own gene/transcript lines differ from what inference derives --
+    for i in range(ctx.budget(40, 1000)):
+        for _ in range(20):
+            m = G.model(rng, explicit="derived-like" if i % 5 == 4 else "differing")
+            if I.expect(m["lines"], m["tkey"], m["gkey"], m["subfeature"])["explicit"]:
+                break
+        else:
+            ctx.skip("merge strategy: no file with a gene/transcript line drawn")
+            continue
+        dbkind = "file" if rng.random() < 0.15 else "memory"
+        for strategy in G.MERGE_STRATEGIES:
+            for dit, dig in FLAG_NAMES:
+                one(ctx, {"kind": "gtf-strategy", "model": m, "merge_strategy": strategy, "dit": dit, "dig": dig, "db": dbkind}, m)
     ctx.mon("bins.bins contract evaluations", contracts.EVALS["bins.bins"])
 
 
@@ -534,7 +611,11 @@ MANIFEST = {
             "exactly the exons' seqid), and on files in which one transcript id is annotated under two or three gene ids: each "
             "such file is imported under four line orders, every import is compared with the model (one gene per gene id over "
             "ITS exons, one transcript over all exons of the id, the transcript a level-1 child of each of its genes) and the "
-            "stored derived features and relations of all orders must coincide. Held = no executed import disagreed.",
+            "stored derived features and relations of all orders must coincide. A last class passes merge_strategy = 'error', "
+            "'merge', 'replace', 'create_unique', 'warning' (x four flag combinations) for files without duplicated ids whose own "
+            "gene/transcript lines differ from what inference derives (other source, wider coordinates, extra attributes) or "
+            "look exactly like it: the line must remain the single feature under its id with its own columns and attributes. "
+            "Held = no executed import disagreed.",
     "note": "Trusted: gvmon/models/gtfinfer.py, gvmon/models/hierarchy.py. Not judged: extents under a set flag, attributes of "
             "derived features, features for ids that own no subfeature. Not generated: a shared transcript id whose genes differ in "
             "seqid/strand, or one of whose genes owns no subfeature line (create_db raises TypeError there when genes are inferred).",
